@@ -86,12 +86,47 @@ pub fn c02(ctx: &Ctx) -> Collector {
     col
 }
 
+/// a returned symbol must survive being copied: clone() and clone_from() into a smaller and into a larger
+/// existing symbol give a value with the same modules (inside and outside the square), size and fields
+fn c03_extra(_case: &Case, _input: &[u8], out: &Outcome) -> Vec<Finding> {
+    let mut f = vec![];
+    if let Outcome::Ok(q) = out {
+        let want = crate::subject::digest(q);
+        let r = crate::subject::guarded(|| {
+            let a = crate::subject::digest(&q.clone());
+            let mut small = Box::new(fast_qr::QRCode::default(21));
+            small.clone_from(q);
+            let mut large = Box::new(fast_qr::QRCode::default(177));
+            for m in large.data.iter_mut().take(177 * 177).skip(3) {
+                m.set(true);
+            }
+            large.clone_from(q);
+            (a, crate::subject::digest(&small), crate::subject::digest(&large))
+        });
+        match r {
+            Ok((a, b, c)) => {
+                if a != want {
+                    f.push(Finding { prop: "C03", key: "C03/clone-differs".into(), what: "clone() of the returned symbol differs from it (modules, size or fields)".into() });
+                }
+                if b != want {
+                    f.push(Finding { prop: "C03", key: "C03/clone-from-into-smaller-differs".into(), what: "clone_from() into a smaller existing symbol gives a symbol that differs from the source".into() });
+                }
+                if c != want {
+                    f.push(Finding { prop: "C03", key: "C03/clone-from-into-larger-differs".into(), what: "clone_from() into a larger, all-dark existing symbol gives a symbol that differs from the source (stale modules)".into() });
+                }
+            }
+            Err(m) => f.push(Finding { prop: "C03", key: "C03/clone-panic".into(), what: format!("copying the returned symbol panicked: {}", m) }),
+        }
+    }
+    f
+}
+
 pub fn c03(ctx: &Ctx) -> Collector {
     let col = Collector::new("C03", "exploration");
     col.set_rule("cases = S_cell (all 40 versions x 4 levels x 8 masks x 3 modes, several payload lengths) and S_opt; oracle at every coordinate of every returned matrix: finder, separator, timing, alignment (Annex E centres computed by rule), dark module equal R's computed geometry; side = 17+4v; the tail data[size*size..177*177] equals the default module; non-trivial = a symbol was returned; distinct = distinct symbol matrices");
     col.assume(A_REF);
     let p = ["C03"];
-    run_space(&col, 0, &spaces::s_cell(ctx.tier.thorough()), &p, true, &no_extra);
+    run_space(&col, 0, &spaces::s_cell(ctx.tier.thorough()), &p, true, &c03_extra);
     run_space(&col, 1, &spaces::s_opt(ctx.tier.thorough()), &p, true, &no_extra);
     run_space(&col, 2, &spaces::s_len(Family::Ctr, if ctx.tier.thorough() { 7200 } else { 0 }), &p, true, &no_extra);
     run_histories(&col, 4, &p, ctx.tier.thorough());
